@@ -45,6 +45,27 @@ def attr_class(d):
     return "+".join(a) or "plain"
 
 
+def model(res, tier):
+    """L3: Tracker.tla (what the code emits) laid out by RustLayout = CLayout, for the whole Gen_Layout universe."""
+    cfg = os.path.join(C.workdir("c02-mc"), "MC_Tracker.cfg")
+    with open(os.path.join(LAY, "MC_Tracker.cfg")) as f:
+        t = f.read()
+    if tier == "thorough":
+        t = t.replace("MaxAttrs = 1", "MaxAttrs = 2")
+    with open(cfg, "w") as f:
+        f.write(t)
+    r = C.tlc(os.path.join(LAY, "MC_Tracker.tla"), cfg=cfg, workers=10, timeout=3000, name="c02-mc", xmx="12g")
+    if not C.tlc_ok(r):
+        # the spec is fixed: a counterexample here is a model-level candidate that must be replayed by hand
+        raise C.ToolError("MC_Tracker (L3) failed: " + r["out"][-1800:])
+    res.add(states=r["distinct"], transitions=r["generated"])
+    for cfgn in ("MC_Tracker_noPadFix_fails.cfg", "MC_Tracker_knownClass_fails.cfg"):
+        r2 = C.tlc(os.path.join(LAY, "MC_Tracker.tla"), cfg=cfgn, workers=4, timeout=900, name="c02-" + cfgn)
+        if "is violated" not in r2["out"]:
+            raise C.ToolError("sensitivity config %s did not fail" % cfgn)
+    res.add(sensitivity_configs_failing_as_expected=2)
+
+
 def generate(res, tier):
     cfg = os.path.join(C.workdir("c02-cfg"), "Gen_Layout.cfg")
     with open(os.path.join(LAY, "Gen_Layout.cfg")) as f:
@@ -207,6 +228,7 @@ def run(res, tier):
         "unions: value round trip through the first member only",
     ]
     C.build()
+    model(res, tier)
     decls = generate(res, tier)
     base = replay(res, tier, decls, tag="base")
     for d in decls[:3]:
